@@ -107,7 +107,7 @@ func refIntegralScale(pts []mpt, unit, d, off int64) (w []want, skipped bool, sc
 }
 
 func TestPropIntegral(t *testing.T) {
-	rec.Check(t, 30000, 900000, func(t *rapid.T) {
+	rec.Check(t, 30000, 600000, func(t *rapid.T) {
 		s := genSeries(t, 40, true)
 		unit := genUnit(t)
 		var d, off int64
@@ -125,6 +125,20 @@ func TestPropIntegral(t *testing.T) {
 			Ascending: s.Asc, StartTime: influxql.MinTime, EndTime: influxql.MaxTime,
 		}
 		got := runStream(mkIntegral(s.Kind, unit, opt), s.Pts)
+		asc := append([]mpt(nil), s.Pts...)
+		sort.SliceStable(asc, func(i, j int) bool { return asc[i].T < asc[j].T })
+		w, skipped, scale := refIntegralScale(asc, int64(unit), d, off)
+		if asserted := !s.Dup && len(s.Pts) != 1 && s.Asc && !skipped; asserted {
+			// known findings: excluded by signature, counted, and not counted as evaluations
+			if integerInterpolationSignature(s, asc, d, off) && knownOpen(knownIntegerIntegral) {
+				rec.ExcludedKnown(knownIntegerIntegral)
+				return
+			}
+			if lastPointAtEpochSignature(asc, d) && knownOpen(knownIntegralEpoch) {
+				rec.ExcludedKnown(knownIntegralEpoch)
+				return
+			}
+		}
 		rec.Eval()
 		grouped := "no-group-by-time"
 		if d > 0 {
@@ -132,9 +146,6 @@ func TestPropIntegral(t *testing.T) {
 		}
 		rec.Class("integral:" + s.Kind.String() + ":" + grouped)
 
-		asc := append([]mpt(nil), s.Pts...)
-		sort.SliceStable(asc, func(i, j int) bool { return asc[i].T < asc[j].T })
-		w, skipped, scale := refIntegralScale(asc, int64(unit), d, off)
 		switch {
 		case s.Dup:
 			rec.Class("tally:equal-timestamps(not asserted):integral")
@@ -157,14 +168,6 @@ func TestPropIntegral(t *testing.T) {
 		}
 		if s.nonTrivial() {
 			rec.NonTrivial(s.canon("integral", unit, d, off))
-		}
-		if sig := integerInterpolationSignature(s, asc, d, off); sig && knownOpen(knownIntegerIntegral) {
-			rec.ExcludedKnown(knownIntegerIntegral)
-			return
-		}
-		if sig := lastPointAtEpochSignature(asc, d); sig && knownOpen(knownIntegralEpoch) {
-			rec.ExcludedKnown(knownIntegralEpoch)
-			return
 		}
 		if diff := compareIntegral(got, w, d, scale); diff != "" {
 			rec.Fail(t, "TestPropIntegral", "integral-"+s.Kind.String()+"-"+grouped,
